@@ -196,7 +196,7 @@ func (x *Exec) loopCut(fr *Frame, st *State, call *ssa.Call, b *ssa.BasicBlock, 
 		if inv == nil {
 			return abortOut(st, "%s: %s", name, why)
 		}
-		x.side = append(x.side, SideOblig{Name: name + "/invariant-on-entry", PC: x.pcOf(st), Goal: inv})
+		x.addSplit(name+"/invariant-on-entry", x.pcOf(st), inv, !st.specPhase)
 		// discover the write set: run the body from the header on clones until it stabilises
 		acc := &discoverAcc{cells: map[int]bool{}, heaps: map[string]bool{}, arrs: map[string]bool{}, maps: map[string]bool{}, iters: map[int]bool{}, globals: map[string]bool{}}
 		for round := 0; round < 5; round++ {
@@ -251,9 +251,9 @@ func (x *Exec) loopCut(fr *Frame, st *State, call *ssa.Call, b *ssa.BasicBlock, 
 		if inv == nil {
 			return abortOut(st, "%s: %s", name, why)
 		}
-		x.side = append(x.side, SideOblig{Name: name + "/invariant-preserved", PC: x.pcOf(st), Goal: inv})
+		x.addSplit(name+"/invariant-preserved", x.pcOf(st), inv, !st.specPhase)
 		if m := evalMeasure(st); m != nil && lc.measure != nil && lc.measure != c.IntLit(-1) {
-			x.side = append(x.side, SideOblig{Name: name + "/decreases", PC: x.pcOf(st), Goal: c.And(c.Cmp("<=", c.IntLit(0), lc.measure), c.Cmp("<", m, lc.measure))})
+			x.side = append(x.side, SideOblig{Name: name + "/decreases", PC: x.pcOf(st), Body: !st.specPhase, Goal: c.And(c.Cmp("<=", c.IntLit(0), lc.measure), c.Cmp("<", m, lc.measure))})
 		}
 		return nil
 	case 3:
@@ -409,4 +409,16 @@ func sortedKeys[V any](m map[string]V) []string {
 	}
 	sort.Strings(ks)
 	return ks
+}
+
+// addSplit records a side obligation; a conjunction is recorded conjunct by conjunct
+// (each one a separate goal, decided separately when the combined query is too hard).
+func (x *Exec) addSplit(name string, pc []*Term, goal *Term, body bool) {
+	if goal.Op == "and" && len(goal.Args) > 1 {
+		for i, g := range goal.Args {
+			x.side = append(x.side, SideOblig{Name: fmt.Sprintf("%s[%d]", name, i), PC: pc, Goal: g, Body: body})
+		}
+		return
+	}
+	x.side = append(x.side, SideOblig{Name: name, PC: pc, Goal: goal, Body: body})
 }
